@@ -729,7 +729,7 @@ impl SubRule {
                             pos = i;
                             // remove segment                             
                             if res_word.syllables.len() <= 1 && res_word.syllables[i.syll_index].segments.len() <= 1 {
-                                return Err(RuleRuntimeError::DeletionOnlySeg)
+                                return Err(RuleRuntimeError::DeletionOnlySeg(self.input_span()))
                             }
                             res_word.syllables[i.syll_index].segments.remove(i.seg_index);
                             // if that was the only segment in that syllable, remove the syllable
@@ -740,7 +740,7 @@ impl SubRule {
                         MatchElement::Syllable(i, _) => {
                             // remove syllable
                             if res_word.syllables.len() <= 1 {
-                                return Err(RuleRuntimeError::DeletionOnlySyll)
+                                return Err(RuleRuntimeError::DeletionOnlySyll(self.input_span()))
                             }
                             pos.syll_index = i;
                             pos.seg_index = 0;
@@ -753,7 +753,7 @@ impl SubRule {
                             // if they both have stress, highest wins
                             // if they both have tone, join them i.e. ma5a1 > ma:51
                             if res_word.syllables.len() <= 1 {
-                                return Err(RuleRuntimeError::DeletionOnlySyll)
+                                return Err(RuleRuntimeError::DeletionOnlySyll(self.input_span()))
                             }
                             
                             if i == 0 || i >= res_word.syllables.len() {
@@ -1958,7 +1958,7 @@ impl SubRule {
                         debug_assert!(res_word.in_bounds(sp));
                         // remove segment                             
                         if res_word.syllables.len() <= 1 && res_word.syllables[sp.syll_index].segments.len() <= 1 {
-                            return Err(RuleRuntimeError::DeletionOnlySeg)
+                            return Err(RuleRuntimeError::DeletionOnlySeg(self.input_span()))
                         }
                         res_word.syllables[sp.syll_index].segments.remove(sp.seg_index);
                         // if that was the only segment in that syllable, remove the syllable
@@ -1972,7 +1972,7 @@ impl SubRule {
                     MatchElement::Syllable(i, _) => {
                         // remove syllable
                         if res_word.syllables.len() <= 1 {
-                            return Err(RuleRuntimeError::DeletionOnlySyll)
+                            return Err(RuleRuntimeError::DeletionOnlySyll(self.input_span()))
                         }
                         pos.syll_index = i;
                         pos.seg_index = 0;
@@ -1985,7 +1985,7 @@ impl SubRule {
                         // if they both have stress, highest wins
                         // if they both have tone, join them i.e. ma5a1 > ma:51
                         if res_word.syllables.len() <= 1 {
-                            return Err(RuleRuntimeError::DeletionOnlySyll)
+                            return Err(RuleRuntimeError::DeletionOnlySyll(self.input_span()))
                         }
                         if i == 0 || i >= res_word.syllables.len() {
                             // can't delete a word boundary
@@ -2021,6 +2021,12 @@ impl SubRule {
             res_word.syllables.pop();
         }
         Ok(res_word)
+    }
+
+    /// The part of the rule line a deletion error is about: the whole input
+    fn input_span(&self) -> Position {
+        let (a, b) = (self.input.first().unwrap().position, self.input.last().unwrap().position);
+        Position::new(a.group, a.line, a.start, b.end)
     }
 
     fn input_match_at(&self, word: &Word, start_index: SegPos) -> Result<(Vec<MatchElement>, Option<SegPos>), RuleRuntimeError> {
